@@ -17,6 +17,12 @@ def main():
     tag, patch, demo, prop = sys.argv[1:5]
     props = sys.argv[4:]
     wt = "/tmp/seedchk/wt"
+    # the confirmation worktree is shared: two evaluations at the same time would confirm each other's
+    # patches (this happened once, in round 9) - serialise them
+    import fcntl
+    os.makedirs("/tmp/seedchk", exist_ok=True)
+    lock = open("/tmp/seedchk/lock", "w")
+    fcntl.flock(lock, fcntl.LOCK_EX)
     env = dict(os.environ, CARGO_TARGET_DIR="/tmp/seedchk/target", CARGO_NET_OFFLINE="true")
     if not os.path.exists(wt):
         os.makedirs("/tmp/seedchk", exist_ok=True)
